@@ -22,7 +22,8 @@ TRUSTED = [
 ]
 
 LIBS = ['systemLog', 'arrayNew', 'arrayLength', 'arrayGet', 'arrayPush', 'arraySet', 'objectNew', 'objectGet', 'objectSet', 'stringLength',
-        'systemGlobalGet', 'systemGlobalSet', 'systemBoolean', 'systemType', 'systemCompare', 'mathMax', 'mathMin', 'arraySort']
+        'systemGlobalGet', 'systemGlobalSet', 'systemBoolean', 'systemType', 'systemCompare', 'mathMax', 'mathMin', 'arraySort',
+        'dataFilter', 'dataCalculatedField', 'dataJoin', 'dataSort', 'dataTop', 'dataAggregate']
 
 
 def templates(r):
@@ -52,6 +53,18 @@ def templates(r):
                  'b.bare': "function fb(n):\n    k = 0\n    for e in arrayNew(1, 2, 3):\n        k = k + e * n\n    endfor\n    return k\nendfunction\nsystemLog('b')\n"}))
     out.append(('include', "i = 0\nwhile i < 3:\n    include 'tick.bare'\n    i = i + 1\nendwhile\nsystemLog('t=' + t)\n",
                 {'tick.bare': "t = if(t, t, 0) + 1\nsystemLog('tick')\nreturn\nsystemLog('never')\n"}))
+    # callbacks from the DATA helpers: the row expression calls a script function; with a variables object the helper evaluates under a
+    # COPY of the options (the statements started there must count against the same budget).  Decided by the metamorphic clauses
+    # (the reference interpreter and the Coq model do not cover data.py).
+    fn = "function ff(v):\n    systemLog('ff ' + v)\n    w = v * 2\n    return w\nendfunction\n" \
+         "data = arrayNew(objectNew('a', 1), objectNew('a', 2), objectNew('a', 3))\n"
+    for vars_ in ("objectNew('vv', 2)", 'null'):
+        for tail in ("systemLog('end')\n", ''):
+            out.append(('data', fn + f"r1 = dataFilter(data, 'ff(a) > vv', {vars_})\n" + tail, {}))
+            out.append(('data', fn + f"systemLog('go')\nr2 = dataCalculatedField(data, 'b', 'ff(a) + 1', {vars_})\n" + tail, {}))
+            out.append(('data', fn + f"right = arrayNew(objectNew('a', 2, 'c', 5), objectNew('a', 4, 'c', 6))\n"
+                                     f"r3 = dataJoin(data, right, 'ff(a)', 'a', true, {vars_})\n" + tail, {}))
+            out.append(('data', fn + f"r1 = dataFilter(data, 'ff(a) > 2', {vars_})\nr2 = dataCalculatedField(r1, 'b', 'ff(a)', {vars_})\n" + tail, {}))
     return out
 
 
